@@ -23,14 +23,14 @@
   * `serialize_groups`, `sections_equal_of_local` – with section re-entry every section receives exactly its projection of the directly
     issued call sequence; any per-section-local assembler abstraction gives equal results.
 
-  Not proved (differential on every run): `embed_const_pool` inside the two theorems above (it is align + bind + data), and the byte
-  equality Builder vs Assembler itself, which rests on the assembler (C01–C03).
+  Not proved (differential on every run): the byte equality Builder vs Assembler itself, which rests on the assembler (C01–C03).
 -/
 import AsmjitVerif.Lemmas.C08Ops
 import AsmjitVerif.Lemmas.C08Sim
 import AsmjitVerif.Lemmas.C08Replay
 import AsmjitVerif.Lemmas.C08Replay2
 import AsmjitVerif.Lemmas.C08Groups
+import AsmjitVerif.Lemmas.C08Cpool
 import AsmjitVerif.Lemmas.C08Local
 
 namespace AsmjitVerif.Props.C08
@@ -178,7 +178,8 @@ example : callsOf {} [Op.opts 0x4001, .extra "k1", .inst 789 ["a", "b", "c", "d"
 /-- `serialize_replays`: an edit-free program (instructions, labels, bind, align, raw and typed data, label addresses and deltas, comments,
     section switches that never go back to a section entered before) is serialised as `section 0` followed by exactly the calls an
     Assembler accepts when the same operations are issued to it directly (`Spec.arun`, Spec/BuilderCalls.lean: written from the
-    Assembler's call-time rules, no nodes, no lists).  `AdmAll` = no node-list editing, no embed_const_pool, no section re-entry. -/
+    Assembler's call-time rules, no nodes, no lists).  `AdmAll` = no node-list editing, no section re-entry (embed_const_pool included: it is align + bind + data, or nothing when
+    refused). -/
 theorem serialize_replays (ops : List Op) (r : Nat) (h : AdmAll { regSize := r } ops) :
     serialize (run (Builder.St.init r) ops) = .section 0 :: (Spec.arun { regSize := r } ops).out := by
   rw [edit_semantics]
@@ -186,7 +187,7 @@ theorem serialize_replays (ops : List Op) (r : Nat) (h : AdmAll { regSize := r }
 
 /-- `serialize_groups`: with section re-entry the Builder regroups its nodes by section, but every section still receives exactly the
     calls that were issued while it was current, in order: the per-section projection of what `serialize_to` issues equals the
-    per-section projection of the directly issued call sequence - for EVERY sequence of emitter calls (no editing, no embed_const_pool). -/
+    per-section projection of the directly issued call sequence - for EVERY sequence of emitter calls (embed_const_pool included). -/
 theorem serialize_groups (ops : List Op) (r : Nat) (h : CallsOnly ops) (s : Nat) :
     Spec.project s 0 (serialize (run (Builder.St.init r) ops)) =
       Spec.project s 0 (.section 0 :: (Spec.arun { regSize := r } ops).out) := by
@@ -238,6 +239,14 @@ example : ∀ i, CodeHolder.projOps i 2 0 (CodeHolder.deltaProgA.drop 3) = CodeH
 def sampleCalls : List Op :=
   [.newlabel, .newsection, .bind 0, .data 38 2 1 "0102030405060708", .elabel 0 8, .section 1, .embed "aa", .bind 0, .section 0, .align 0 4]
 
+-- embed_const_pool: accepted (align + bind + data) and refused (label already bound: nothing at all)
+example : serialize (run (Builder.St.init 8) [.newlabel, .cpool 0 4 "0102030405060708", .cpool 0 4 "01020304"]) =
+    [.section 0, .align 1 4, .bind 0, .data 35 8 1 "0102030405060708"] := by decide
+example : (Spec.arun { regSize := 8 } [.newlabel, .cpool 0 4 "0102030405060708", .cpool 0 4 "01020304"]).out =
+    [.align 1 4, .bind 0, .data 35 8 1 "0102030405060708"] := by decide
+example : AdmAll { regSize := 8 } [.newlabel, .cpool 0 4 "0102030405060708", .cpool 0 4 "01020304"] := by
+  simp [AdmAll, Adm, Adm0, Spec.isEdit]
+
 example : CallsOnly sampleCalls := by
   intro op hop
   simp [sampleCalls] at hop
@@ -247,7 +256,7 @@ example : (Spec.arun { regSize := 8 } sampleCalls).out =
 example : serialize (run (Builder.St.init 8) sampleCalls) =
     [.section 0, .bind 0, .data 38 2 1 "0102030405060708", .elabel 0 8, .align 0 4, .section 1, .data 35 1 1 "aa"] := by decide
 example : AdmAll { regSize := 8 } (sampleCalls.take 8) := by
-  simp [sampleCalls, AdmAll, Adm, Spec.astep, Spec.isEdit, Spec.ASt.emit, typeModelled, typeSize, sizeOk]
+  simp [sampleCalls, AdmAll, Adm, Adm0, Spec.astep, Spec.isEdit, Spec.ASt.emit, typeModelled, typeSize, sizeOk]
 
 -- an operation-level history: two sections, re-entry, an instruction with options/extra register/comment, a move, a range removal
 def sampleOps : List Op :=
